@@ -191,8 +191,10 @@ func (r *rdbdriver) GetLocationByMap(ipnet *net.IPNet, mapID []byte, context Con
 		// below the client's prefix must not select a longer subnet
 		copy(fullKey[6:], masked.To16())
 	}
-	reqMaskLen, _ := ipnet.Mask.Size()
-	if isIPv4(ipnet.IP) {
+	reqMaskLen, maskBits := ipnet.Mask.Size()
+	if isIPv4(ipnet.IP) && maskBits == 8*net.IPv4len {
+		// a 128-bit wide mask (ECS family 2 carrying a v4-mapped address)
+		// already counts the 96 prefix bits
 		reqMaskLen += 128 - 32
 	}
 	copy(fullKey[6+16:], []byte{uint8(reqMaskLen)})
